@@ -60,6 +60,13 @@ type c11txn struct {
 
 func runC11(s *kernel.Sim) {
 	tp := s.Tape
+	// transaction ids are chosen by clients too (x-lunar-req-id): in a third of the
+	// runs they are long and differ only after their first 36 characters
+	idPrefix := "t"
+	if tp.Chance(1, 3) {
+		idPrefix = "billing-service.eu-west-1.prod.invoice-sync-"
+	}
+	s.Knobs["transaction_id_prefix"] = idPrefix
 	// lock attempts that do not wait (TryLock / TryRLock) may fail as if another
 	// goroutine - a pinning transaction, a reload, a vacuum pass - held the lock
 	s.FaultOn = func(point string, _ []string) error {
@@ -148,7 +155,7 @@ func runC11(s *kernel.Sim) {
 			switch {
 			case c == 0 || (c == 1 && len(open) == 0):
 				n++
-				t := &c11txn{id: fmt.Sprintf("t%d", n)}
+				t := &c11txn{id: fmt.Sprintf("%s%d", idPrefix, n)}
 				ops = append(ops, &op{kind: "req", t: t})
 			case c == 1:
 				t := open[tp.Choose(len(open))]
